@@ -18,3 +18,4 @@ def check(ctx, env):
     K.r4_4_exhaustive(ctx, prog)
     K.r4_5_siblings(ctx, prog)
     K.r18_5_builder(ctx, prog, rule="R4.6")
+    K.r4_7_input_text(ctx, prog)
